@@ -26,6 +26,7 @@ type c10Case struct {
 	MapOp   string       `json:"mapop,omitempty"` // "", identity, exclude, skipdir, rewrite
 	MapPath string       `json:"mappath,omitempty"`
 	Disk    bool         `json:"disk,omitempty"`
+	Reuse   bool         `json:"reuse,omitempty"` // one filtered FS value walked repeatedly and re-entrantly
 }
 
 func (c c10Case) String() string {
@@ -36,10 +37,16 @@ func (c c10Case) String() string {
 	if c.Disk {
 		s += " disk"
 	}
+	if c.Reuse {
+		s += " reuse"
+	}
 	return s
 }
 
 var c10Patterns = []string{"a", "a/b", "a/*", "a/**", "*", "**", "a*", "?b", "*/b", "**/b", "a/b/", "[a]b", "a/b*", "b", "!a", "!a/b", "!a/b*", "!**/c", "ab"}
+
+// literal prefixes of increasing depth, negated and not, and trailing globs
+var c10DeepPatterns = []string{"a", "a/b", "a/b/c", "a/b/c/b", "!a", "!a/b", "!a/b/c", "b/a", "!b/a", "a/*", "a/b/**"}
 
 // patterns whose tail is more than one wildcard component (used in single-pattern and pair cases)
 var c10TailPatterns = []string{"a/*/**", "*/*", "a/*/*", "!a/*/*", "!a/*/**", "*/*/**"}
@@ -278,6 +285,57 @@ func walkFiltered(c c10Case, under fsutil.FS) (*c10Result, error) {
 	return res, err
 }
 
+// judgeC10Reuse: what a filtered FS value reports does not depend on what else the value has done or is doing:
+// walked again after a walk, and with a second complete walk running inside each callback of a walk in turn.
+func judgeC10Reuse(c c10Case, under fsutil.FS) (string, string) {
+	ffs, err := fsutil.NewFilterFS(under, &fsutil.FilterOpt{IncludePatterns: c.Include, ExcludePatterns: c.Exclude})
+	if err != nil {
+		return "walk-failed", err.Error()
+	}
+	ctx := context.Background()
+	paths := func(hook func(i int)) (string, error) {
+		var out []string
+		err := ffs.Walk(ctx, "/", func(p string, e gofs.DirEntry, err error) error {
+			if err != nil {
+				return err
+			}
+			if hook != nil {
+				hook(len(out))
+			}
+			out = append(out, p)
+			return nil
+		})
+		return strings.Join(out, " "), err
+	}
+	first, err := paths(nil)
+	if err != nil {
+		return "walk-failed", err.Error()
+	}
+	if again, err := paths(nil); err != nil || again != first {
+		return "history-differs", fmt.Sprintf("second walk of the same filtered FS reports [%s] (%v), the first reported [%s]", again, err, first)
+	}
+	n := len(strings.Fields(first))
+	for i := 0; i < n; i++ {
+		var inner string
+		var innerErr error
+		outer, err := paths(func(k int) {
+			if k == i {
+				inner, innerErr = paths(nil)
+			}
+		})
+		if err != nil || innerErr != nil {
+			return "walk-failed", fmt.Sprintf("re-entrant walk at callback %d: %v %v", i, err, innerErr)
+		}
+		if outer != first {
+			return "reentrant-differs", fmt.Sprintf("a walk reports [%s] when another walk of the same filtered FS runs inside its callback #%d; alone it reports [%s]", outer, i, first)
+		}
+		if inner != first {
+			return "reentrant-differs", fmt.Sprintf("a walk started inside callback #%d of another walk of the same filtered FS reports [%s]; alone it reports [%s]", i, inner, first)
+		}
+	}
+	return "", ""
+}
+
 func judgeC10(c c10Case) (string, string) {
 	var under fsutil.FS = memfs.New(c.Tree)
 	if c.Disk {
@@ -291,6 +349,9 @@ func judgeC10(c c10Case) (string, string) {
 			return "infra", err.Error()
 		}
 		under = d
+	}
+	if c.Reuse {
+		return judgeC10Reuse(c, under)
 	}
 	res, err := walkFiltered(c, under)
 	if err != nil {
@@ -409,8 +470,31 @@ func runC10(r *evid.Run) {
 			}
 		}
 	}
+	// literal prefixes down to depth 4 with negations in between: every list of three, as include and as exclude
+	// list (the lists the directory-pruning shortcut applies to)
+	for _, l := range patternLists(3, c10DeepPatterns) {
+		if len(l) != 3 {
+			continue
+		}
+		for _, t := range trees {
+			cases = append(cases, c10Case{Tree: t, Include: l}, c10Case{Tree: t, Exclude: l})
+		}
+	}
 	// on disk (lazy stats): lists of length <=1 on both sides, every tree
 	short := patternLists(1, c10Patterns)
+	// one filtered FS value walked again and re-entrantly at every callback position
+	for _, t := range trees {
+		for _, inc := range short {
+			for _, exc := range short {
+				cases = append(cases, c10Case{Tree: t, Include: inc, Exclude: exc, Reuse: true})
+			}
+		}
+		for _, disk := range []bool{false, true} {
+			for _, l := range [][]string{{"a/b/c"}, {"**/c"}, {"a/b/c/b", "b/a/b"}, {"*/b", "!a/b"}} {
+				cases = append(cases, c10Case{Tree: t, Include: l, Reuse: true, Disk: disk}, c10Case{Tree: t, Exclude: l, Reuse: true, Disk: disk})
+			}
+		}
+	}
 	for _, t := range trees {
 		for _, inc := range short {
 			for _, exc := range short {
